@@ -94,6 +94,21 @@ func diagnoseBlockedWriter(pid int) (string, string) {
 		frontier = next
 	}
 	desc := fmt.Sprint(all)
+	// the supervised process itself: blocked for ever in open(2) of a FIFO nobody writes to
+	if tasks, err := os.ReadDir(fmt.Sprintf("/proc/%d/task", pid)); err == nil {
+		for _, tk := range tasks {
+			wchan := procRead(pid, "task/"+tk.Name()+"/wchan")
+			sc := procRead(pid, "task/"+tk.Name()+"/syscall")
+			if strings.Contains(wchan, "fifo") || strings.Contains(wchan, "wait_for_partner") {
+				cpu1, _ := procCPU(pid)
+				time.Sleep(300 * time.Millisecond)
+				cpu2, _ := procCPU(pid)
+				if cpu1 == cpu2 {
+					return fmt.Sprintf("thread %s of the calling process sleeps in wchan=%q syscall=%q with no CPU progress: blocked opening a FIFO that has no writer", tk.Name(), wchan, firstFields(sc, 2)), desc
+				}
+			}
+		}
+	}
 	for _, p := range all {
 		wchan := procRead(p, "wchan")
 		sc := procRead(p, "syscall")
